@@ -56,6 +56,8 @@ def body(chk):
     variants = [dict(), dict(leader=dict(np=1, nch=1)), dict(leader=dict(np=136, nch=16)), dict(leader=dict(np=2, nch=8)),
                 dict(ctx=dict(designator="UPS-PROJECTION")), dict(ctx=dict(designator="LCC-PROJECTION")),
                 dict(ctx=dict(designator="MER-PROJECTION")), dict(level="1.1"), dict(level="3.1"),
+                # designators outside the four flavours the reader knows: the record is exposed without a projection-specific block
+                dict(ctx=dict(designator="PS-PROJECTION")), dict(ctx=dict(designator="EQR-PROJECTION")),
                 # record lengths other than the nominal ones (positions follow the DECLARED lengths): attitude records of 8192 / 32768 bytes and exactly
                 # as long as their points need, facility records of other sizes
                 dict(leader=dict(np=3, attlen=8192)), dict(leader=dict(np=5, attlen=32768)), dict(leader=dict(np=20, attlen=16 + 120 * 20)),
